@@ -20,6 +20,13 @@ CHECKS["C12"] = dict(
     note="Trusted: Coq kernel incl. vm_compute; the fail-closed translator mathtable.py (literal table rows, textual normal form of add_function_mapping and find_known_functions.visit_Call, README regex, builtins' __module__ from the interpreter); the hand-written <cmath> signature table; what each std:: function computes (C library). Traces are tests.",
     technique="Coq proof by computation over a table regenerated from source + end-to-end traces",
 )
+CHECKS["C06"] = dict(
+    category="proof",
+    text="The three collection tables, the container classes' type-string and token-type formats, the coders' line templates (f-strings as patterns with holes), the token allocation site, the metadata branches' allowed keys / constructed classes / backend names and the executors' backend checks are regenerated from /repo on every run. Coq proves for every specification of a backend (table row or produced by process_decl from a declaration), every bank string and every generated-code state: the substituted retrieval code is exactly the backend idiom for (container type, bank) (C06_idiom_atlas / _cms_aod / _cms_miniaod, C06_token_init_cms_miniaod, via a general theorem that whole-word substitution commutes with f-string instantiation); the result variable has the container type, is declared in the current block and assigned once; headers and libraries are requested de-duplicated with order kept; miniAOD tokens are one per use, pairwise distinct and assigned once in the booking code; singletons are values (iteration raises ValueError), collections are iterated with the declared element type and pointer depth; a declared collection replaces a built-in of its name; unexpected keys, element_type mismatch, missing keys, wrong arity / non-string argument and foreign-backend declarations are refused. The hand model is tied to the executors by a correspondence over every built-in collection x 22 bank strings x 3 backends x 6 query positions plus random (mostly valid, 22% malformed) metadata declarations, and an independent regex-level oracle of the property text on the rendered files yields the concrete failing input.",
+    design_ref="5.6",
+    note="Trusted: Coq kernel incl. vm_compute on the finite regenerated tables; the fail-closed translator collections.py; the hand model Collections.v (re.sub with \\b...\\b modelled as replacement of maximal ASCII word runs, validated against re.sub; unique_name as (base, counter)); extraction, OCaml driver, S-expression codec; the correspondence is a differential test bounded by its generator (bank alphabet [A-Za-z0-9_:.- ]; escaping is C18). func_adl's AST passes and what retrieve/getByLabel/getByToken do at run time are not modelled.",
+    technique="Coq proof (induction over patterns, use lists and generated-code states; computation over regenerated tables) + model/implementation correspondence + property oracle on rendered packages",
+)
 NOT_YET = {}
 
 def main():
